@@ -56,6 +56,15 @@ def line_of(n):
 
 INT_TYS = {"u8", "u16", "u32", "u64", "u128", "usize", "i8", "i16", "i32", "i64", "i128", "isize"}
 
+
+def int_width(ty):
+    if ty in ("usize", "isize"):
+        return 64
+    try:
+        return int(ty[1:])
+    except ValueError:
+        return 64
+
 # callees that return (a view of) their receiver: elided in terms
 TRANSPARENT = {
     "std::clone::Clone::clone", "std::borrow::ToOwned::to_owned", "std::convert::AsRef::as_ref",
@@ -270,8 +279,8 @@ class FnView:
         if k == "cast":
             ty = n.get("ty", "")
             src = n["e"].get("ty", "")
-            if ty in INT_TYS and (src in INT_TYS or src == ""):
-                return T(n["e"])
+            if ty in INT_TYS and (src in INT_TYS or src == "") and int_width(ty) >= int_width(src or ty):
+                return T(n["e"])       # widening / same-width integer casts do not change the value
             return ("cast", ty, T(n["e"]))
         if k == "field":
             if n["name"].isdigit():
